@@ -440,3 +440,7 @@ def run(ctx, cfg=CFG):
     r5_hash_index(ctx, cfg)
     from . import c04
     c04.r5_latest_wins(ctx, c04.CFG, rule="C05.R6")
+
+
+from .selftest import for_families as _ff  # noqa: E402
+selftest = _ff(['gate', 'loop'])
